@@ -19,10 +19,19 @@ def ribPrefixMalformed (d : Deps) (v4min v6min : Nat) (suffix : Bytes) (ps : Lis
     !includeOk ps                                                           -- unknown `include` value
     || (wantsMore ps && len < (if v4 then v4min else v6min))                -- too short for more-specifics
     || !detailsOk ps                                                        -- unknown `details` value
-    || !filtersOk d sSelect ps || !filtersOk d sDiscard ps                  -- bad ASN / community / filter family
+    || filtersRes d sSelect ps != .ok || filtersRes d sDiscard ps != .ok    -- bad ASN / community / filter family
     || !filterOpOk ps                                                       -- unknown `filter_op`
     || !(unusedParams ps).isEmpty                                           -- unrecognised parameter
     || !formatOk ps                                                         -- unsupported `format`
+
+/-- A prefix query reaches a dependency call that panics (before anything rejects the request). -/
+def ribPrefixDepPanics (d : Deps) (v4min v6min : Nat) (suffix : Bytes) (ps : List Param) : Bool :=
+  match d.pfx suffix with
+  | .err => false
+  | .ok v4 len =>
+    includeOk ps && !(wantsMore ps && len < (if v4 then v4min else v6min)) && detailsOk ps
+    && (filtersRes d sSelect ps == .panic
+        || (filtersRes d sSelect ps == .ok && filtersRes d sDiscard ps == .panic))
 
 /-- A RIB request (prefix or ingress-id query, chosen by the number of raw path segments). -/
 def ribMalformed (d : Deps) (v4min v6min : Nat) (raw suffix : Bytes) (ps : List Param) : Bool :=
@@ -48,7 +57,11 @@ def Proc.malformed (d : Deps) (raw dec : Bytes) (ps : List Param) : Proc → Boo
   | .dead => false
 
 /-- Would this processor panic on the request (code as selected by `v`)? -/
-def Proc.panics (v : Variant) (dec : Bytes) : Proc → Option Site
+def Proc.panics (v : Variant) (d : Deps) (raw dec : Bytes) (ps : List Param) : Proc → Option Site
+  | .rib base v4min v6min =>
+    if v.depPanic && countByte 47 raw + 1 ≠ 3
+        && ribPrefixDepPanics d v4min v6min ((stripPrefix dec base).getD []) ps then some .depFromStr
+    else none
   | .graph empty =>
     let restant := dec.drop sGraph.length
     if v.graphSplit && containsSub restant sTracesSeg && !isCharBoundary restant sTracesSeg.length then some .graphSplitAt
@@ -60,20 +73,28 @@ def respOf (bad : Bool) : Resp := if bad then r400 else r200
 
 /-! ### The sequential code computes the declarative reading -/
 
-private theorem chain8 (a b c e f g h i : Bool) :
-    (if (!a) = true then r400 else if b = true then r400 else if (!c) = true then r400
-     else if (!e) = true then r400 else if (!f) = true then r400 else if (!g) = true then r400
-     else if (!h) = true then r400 else if i = true then r200 else r400)
-    = if (!a || b || !c || !e || !f || !g || !h || !i) = true then r400 else r200 := by
-  cases a <;> cases b <;> cases c <;> cases e <;> cases f <;> cases g <;> cases h <;> cases i <;> rfl
+private theorem chainRib (dp a b c g h i : Bool) (e f : PRes) :
+    (if (!a) = true then PR.resp r400 else if b = true then PR.resp r400 else if (!c) = true then PR.resp r400
+     else match filterStop ⟨x1, x2, x3, dp⟩ e with
+       | some r => r
+       | none => match filterStop ⟨x1, x2, x3, dp⟩ f with
+         | some r => r
+         | none => if (!g) = true then PR.resp r400 else if (!h) = true then PR.resp r400
+                   else if i = true then PR.resp r200 else PR.resp r400)
+    = if (dp && (a && !b && c && (e == .panic || (e == .ok && f == .panic)))) = true then PR.panic .depFromStr
+      else PR.resp (if (!a || b || !c || e != .ok || f != .ok || !g || !h || !i) = true then r400 else r200) := by
+  cases dp <;> cases a <;> cases b <;> cases c <;> cases e <;> cases f <;> cases g <;> cases h <;> cases i <;> rfl
 
-theorem ribPrefixQuery_eq (d : Deps) (v4min v6min : Nat) (suffix : Bytes) (ps : List Param) :
-    ribPrefixQuery d v4min v6min suffix ps = respOf (ribPrefixMalformed d v4min v6min suffix ps) := by
-  unfold ribPrefixQuery ribPrefixMalformed respOf
+theorem ribPrefixQuery_eq (v : Variant) (d : Deps) (v4min v6min : Nat) (suffix : Bytes) (ps : List Param) :
+    ribPrefixQuery v d v4min v6min suffix ps =
+      if (v.depPanic && ribPrefixDepPanics d v4min v6min suffix ps) = true then .panic .depFromStr
+      else .resp (respOf (ribPrefixMalformed d v4min v6min suffix ps)) := by
+  unfold ribPrefixQuery ribPrefixMalformed ribPrefixDepPanics respOf
   cases d.pfx suffix with
-  | err => rfl
+  | err => simp
   | ok v4 len =>
-    exact chain8 _ _ _ _ _ _ _ _
+    obtain ⟨x1, x2, x3, dp⟩ := v
+    exact chainRib (x1 := x1) (x2 := x2) (x3 := x3) dp _ _ _ _ _ _ _ _
 
 theorem ribIngressQuery_eq (suffix : Bytes) :
     ribIngressQuery suffix = respOf (parseUInt 4294967295 suffix).isNone := by
@@ -90,23 +111,28 @@ private theorem chainMrt (q a b : Bool) :
     = if q = true then PR.resp (if (!a || !b) = true then r400 else r200) else PR.none := by
   cases q <;> cases a <;> cases b <;> rfl
 
-private theorem ribOpt (d : Deps) (v4min v6min : Nat) (raw : Bytes) (ps : List Param) (o : Option Bytes) :
+private theorem ribOpt (v : Variant) (d : Deps) (v4min v6min : Nat) (raw : Bytes) (ps : List Param) (o : Option Bytes) :
     (match o with
       | none => PR.none
       | some suffix =>
         if countByte 47 raw + 1 = 3 then PR.resp (ribIngressQuery suffix)
-        else PR.resp (ribPrefixQuery d v4min v6min suffix ps)) =
+        else ribPrefixQuery v d v4min v6min suffix ps) =
       if o.isSome = true then
-        PR.resp (respOf (if countByte 47 raw + 1 = 3 then (parseUInt 4294967295 (o.getD [])).isNone
+        match (if (v.depPanic && decide (countByte 47 raw + 1 ≠ 3)
+                && ribPrefixDepPanics d v4min v6min (o.getD []) ps) = true then some Site.depFromStr else none) with
+        | some s => PR.panic s
+        | none => PR.resp (respOf (if countByte 47 raw + 1 = 3 then (parseUInt 4294967295 (o.getD [])).isNone
             else ribPrefixMalformed d v4min v6min (o.getD []) ps))
       else PR.none := by
   cases o with
   | none => rfl
   | some suffix =>
     simp only [Option.isSome_some, if_true, Option.getD_some]
-    split
-    · rw [ribIngressQuery_eq]
-    · rw [ribPrefixQuery_eq]
+    by_cases hs : countByte 47 raw + 1 = 3
+    · simp [hs, ribIngressQuery_eq]
+    · simp only [hs, if_false, ne_eq, not_false_eq_true, decide_true, Bool.and_true]
+      rw [ribPrefixQuery_eq]
+      split <;> rfl
 
 private theorem mrtOpt (d : Deps) (hasDir : Bool) (ps : List Param) (o : Option Bytes) :
     (match o with
@@ -129,7 +155,7 @@ private theorem mrtOpt (d : Deps) (hasDir : Bool) (ps : List Param) (o : Option 
 theorem Proc.run_eq (v : Variant) (d : Deps) (raw dec : Bytes) (ps : List Param) (p : Proc) :
     p.run v d raw dec ps =
       if p.claims dec then
-        match p.panics v dec with
+        match p.panics v d raw dec ps with
         | some s => .panic s
         | none => .resp (respOf (p.malformed d raw dec ps))
       else .none := by
@@ -154,7 +180,7 @@ theorem Proc.run_eq (v : Variant) (d : Deps) (raw dec : Bytes) (ps : List Param)
     · simp [h]
   | rib base v4min v6min =>
     simp only [Proc.run, ribProc, Proc.claims, Proc.panics, Proc.malformed, ribMalformed]
-    exact ribOpt d v4min v6min raw ps _
+    exact ribOpt v d v4min v6min raw ps _
   | mrt base hasDir =>
     simp only [Proc.run, mrtProc, Proc.claims, Proc.panics, Proc.malformed, respOf]
     exact mrtOpt d hasDir ps _
@@ -165,7 +191,7 @@ theorem firstSome_eq (v : Variant) (d : Deps) (raw dec : Bytes) (ps : List Param
       match procs.find? (·.claims dec) with
       | none => .none
       | some p =>
-        match p.panics v dec with
+        match p.panics v d raw dec ps with
         | some s => .panic s
         | none => .resp (respOf (p.malformed d raw dec ps)) := by
   induction procs with
@@ -175,7 +201,7 @@ theorem firstSome_eq (v : Variant) (d : Deps) (raw dec : Bytes) (ps : List Param
     rw [Proc.run_eq]
     by_cases h : p.claims dec = true
     · simp only [h, if_true]
-      cases p.panics v dec <;> simp
+      cases p.panics v d raw dec ps <;> simp
     · simp only [h, Bool.false_eq_true, if_false]
       simp [ih]
 
